@@ -215,6 +215,9 @@ func (g *WeightedDirectedGraph) RemoveLine(fid, tid, id int64) {
 	if _, ok := g.nodes[tid]; !ok {
 		return
 	}
+	if _, ok := g.from[fid][tid][id]; !ok {
+		return
+	}
 
 	delete(g.from[fid][tid], id)
 	if len(g.from[fid][tid]) == 0 {
